@@ -2,6 +2,8 @@
 
 from __future__ import annotations
 
+from ..vloop import texc
+
 import itertools
 from typing import Any
 
@@ -175,7 +177,7 @@ def run_case(gws: tuple[int, ...], flt: tuple[bool, ...], sc: str, fail_first: b
             loop.run_until(loop.time() + 10)
             outcome = "pending"
             if t.done():
-                exc = t.exception()
+                exc = texc(t)
                 if exc is None:
                     outcome = "connected:" + (iface.calls[-1][0] if iface.calls else "nothing")
                 elif isinstance(exc, CommunicationError):
